@@ -3,7 +3,7 @@
 From Unimock Require Import Model.RunChain Proofs.Chain.
 Open Scope list_scope.
 
-Definition is_make_mut (o : cop) : bool := match o with CMut _ _ => true | _ => false end.
+Definition is_make_mut (o : cop) : bool := match o with CMut _ _ | CMutM _ _ => true | _ => false end.
 
 (* every value the caller holds a reference to is in one of the instance's two chains *)
 Definition held_alive (ci : cinst) : Prop :=
@@ -18,7 +18,7 @@ Lemma step_releases_nothing others ci o : is_make_mut o = false ->
   (exists e1, cells (ci_chain ci') = cells (ci_chain ci) ++ e1) /\
   (exists e2, cells (ci_helper ci') = cells (ci_helper ci) ++ e2).
 Proof.
-  intros H. destruct o as [ty v|ty v| |ty v| | |]; try discriminate; cbn.
+  intros H. destruct o as [ty v|ty v| |ty v| | | |ty v]; try discriminate; cbn.
   - repeat split; try reflexivity; [exists [(ty, v)]; reflexivity|exists []; now rewrite app_nil_r].
   - repeat split; try reflexivity; exists []; now rewrite app_nil_r.
   - repeat split; try reflexivity; [exists []; now rewrite app_nil_r|exists [(ty, v)]; reflexivity].
@@ -33,11 +33,25 @@ Lemma make_mut_releases_own_only others ci ty v :
   released (ci_chain ci') = all_values (ci_chain ci) /\ ci_helper ci' = ci_helper ci /\ ci_held ci' = [].
 Proof. cbn. repeat split. Qed.
 
+(* ... whichever way make_mut is reached: directly, or by the answer function of a mocked method with a `&mut` result *)
+Lemma any_make_mut_releases_own_only others ci o : is_make_mut o = true ->
+  let ci' := fst (cop_step others ci o) in
+  released (ci_chain ci') = all_values (ci_chain ci) /\ ci_helper ci' = ci_helper ci /\ ci_held ci' = [] /\
+  length (cells (ci_chain ci')) = 1%nat.
+Proof.
+  intros H. destruct o as [ty v|ty v| |ty v| | | |ty v]; try discriminate; cbn; repeat split.
+Qed.
+
+(* a mocked `&mut`-returning method answered with make_mut behaves exactly like make_mut called on the instance *)
+Lemma mocked_mut_result_is_make_mut others ci ty v : (ty <? 2)%N = true ->
+  cop_step others ci (CMutM ty v) = cop_step others ci (CMut ty v).
+Proof. intros H. cbn. rewrite H. reflexivity. Qed.
+
 Lemma step_helper_never_released others ci o :
   released (ci_helper (fst (cop_step others ci o))) = released (ci_helper ci)
   /\ exists e, cells (ci_helper (fst (cop_step others ci o))) = cells (ci_helper ci) ++ e.
 Proof.
-  destruct o as [ty v|ty v| |ty v| | |]; cbn; split; try reflexivity;
+  destruct o as [ty v|ty v| |ty v| | | |ty v]; cbn; split; try reflexivity;
     try (exists []; now rewrite app_nil_r). exists [(ty, v)]. reflexivity.
 Qed.
 
@@ -66,7 +80,7 @@ Qed.
 (* every held reference points at a value that is still in a chain, after any operation sequence *)
 Lemma step_held_alive others ci o : held_alive ci -> held_alive (fst (cop_step others ci o)).
 Proof.
-  unfold held_alive. intros H. destruct o as [ty v|ty v| |ty v| | |]; cbn.
+  unfold held_alive. intros H. destruct o as [ty v|ty v| |ty v| | | |ty v]; cbn.
   - intros x Hx. apply in_app_or in Hx. destruct Hx as [Hx|[<-|[]]].
     + apply H in Hx. apply in_app_or in Hx. destruct Hx as [Hx|Hx]; apply in_or_app; [left|right]; [|exact Hx].
       apply in_or_app. left. exact Hx.
@@ -77,6 +91,7 @@ Proof.
     + apply H in Hx. apply in_app_or in Hx. destruct Hx as [Hx|Hx]; apply in_or_app; [left; exact Hx|right].
       apply in_or_app. left. exact Hx.
     + apply in_or_app. right. apply in_or_app. right. left. reflexivity.
+  - intros x [].
   - intros x [].
   - intros x [].
   - intros x [].
